@@ -226,6 +226,7 @@ class OpCtx:
         self.tpos = 0
         self.steps = 0
         self.rw_steps = 0
+        self.cap_factor = max(1, op.get('n', 1)) if op.get('k') == 'bulk' else 1
         self.injected = []            # exception instances injected into this op
         self.inflight = []            # [(content, mtime)] versions the file took while in flight
         self.start = None             # (content, mtime) at op start
@@ -387,6 +388,11 @@ class World:
                 self.fs.h_mkdirs(os.path.dirname(f))
             if f.endswith('/flink.py'):
                 self.fs.h_symlink(f, ROOT + '/src/real_target.py')     # the source path itself is a symlink
+        nbulk = max([op.get('n', 0) for op in self.plan['ops'] if op.get('k') == 'bulk'] or [0])
+        if nbulk:
+            self.fs.h_mkdirs(ROOT + '/src/bulk')
+            for i in range(nbulk):
+                self.fs.h_write(ROOT + '/src/bulk/m%03d.py' % i, b'b%d = %d\n' % (i, i), mtime=T0 - 1000.0 + i)
         self._base_state = self._module_snapshot()
         self.procs = [Proc(self, i) for i in range(cfg.get('nproc', 1))]
         return self
@@ -535,7 +541,7 @@ class World:
         self.nsteps += 1
         if kind in ('read', 'write'):
             ctx.rw_steps += 1            # bounded by file size / chunk knob, not by the code's control flow
-        if ctx.steps - ctx.rw_steps > STEP_CAP or ctx.rw_steps > 100 * STEP_CAP:
+        if ctx.steps - ctx.rw_steps > STEP_CAP * ctx.cap_factor or ctx.rw_steps > 100 * STEP_CAP:
             raise StepCap('op %d exceeded %d seam steps' % (ctx.index, STEP_CAP))
         self.now += self.tick
         pclass = self.classify(path)
@@ -568,7 +574,7 @@ class World:
                     return k
             return 0
 
-        d = 0 if (ctx.op.get('quiet') or ctx.op.get('givecode') or ctx.op['k'] == 'repaircheck') \
+        d = 0 if (ctx.op.get('quiet') or ctx.op.get('givecode') or ctx.op['k'] in ('repaircheck', 'bulk')) \
             else ctx.decide(chooser)
         self.log('s', ctx.index, pid, kind, pclass, d, size)
         if d == D_NONE:
@@ -782,6 +788,21 @@ class World:
                     outs.append(('exc', e, None))
                 outs[-1] = outs[-1][:2] + (proc.ctx.src_opened,)
             return ('pair', outs)
+        if k == 'bulk':
+            # a language server that has just indexed a package: n small files parsed with cache=True
+            # (fills the in-memory cache up to and past its default size trigger of 600)
+            g = grammar(self.cfg['grammars'][op['g'] % len(self.cfg['grammars'])])
+            kw = {'cache': True}
+            if op.get('c', 0) >= 0:
+                kw['cache_path'] = self.cdir(op.get('c', 0))
+            try:
+                for i in range(op['n']):
+                    g.parse(path=Path(ROOT + '/src/bulk/m%03d.py' % i), **kw)
+            except (SimCrash, HarnessError, StepCap):
+                raise
+            except BaseException as e:
+                return ('exc', e)
+            return ('noop',)
         if k == 'usednames':
             # a client that uses the cached module between two edits
             g = grammar(self.cfg['grammars'][op['g'] % len(self.cfg['grammars'])])
@@ -818,6 +839,10 @@ class World:
             return
         if op['k'] == 'parse':
             self._check_parse(proc, ctx, res)
+        elif op['k'] == 'bulk' and res[0] == 'exc':
+            e = res[1]
+            self._violate(ctx, 'raises', 'raises:%s@%s' % (type(e).__name__, _site(e)),
+                          'bulk parse of small files: %s: %s at %s' % (type(e).__name__, str(e)[:200], _site(e)))
         elif op['k'] == 'repaircheck':
             first, second = res[1]
             self._check_parse(proc, ctx, first[:2])
